@@ -44,6 +44,9 @@ def parts(tier):
           dict(part="ec", cfg="asan256", shards=3 if q else 6),
           dict(part="pairing", cfg="asan256", shards=4 if q else 6),
           dict(part="mpc", cfg="asan256", shards=3 if q else 4)]
+    # key agreement / ECIES / commitments on the curves of the other field sizes (group orders of odd bit length,
+    # cofactors 8 and 2^126): ec_* dispatches to the prime curves there as well
+    ps += [dict(part="ec-alt", cfg="asan255", shards=1 if q else 2), dict(part="ec-alt", cfg="asan381", shards=1 if q else 2)]
     if not q:
         ps += [dict(part="rsa", cfg="rsa-pkcs1", shards=4), dict(part="rsa", cfg="rsa-basic", shards=4)]
     return ps
@@ -1230,13 +1233,25 @@ class EcKa(W):
         self.case("cp_ped_com|h=infinity", [cname], hinf)
 
 
-def run_ec(ctx):
+def run_ec(ctx, alt=False):
     R = PX(ctx.cfg)
     w = EcKa(ctx, R)
     ids = R.ep_param_ids()
     ctx.note("curves", [nm for nm, _ in ids])
+    orders = {}
     for ci, (nm, cid) in enumerate(ids):
-        R.set_curve(cid)
+        pr = R.set_curve(cid)
+        orders[nm] = [pr["n"].bit_length(), hx(pr["h"])]
+        if alt:
+            # few runs per curve: every key is recomputed from the protocol definition for both parties
+            w.ecdh(nm, ctx.n(8, 100))
+            w.ecdh_directed(nm)
+            w.ecmqv_directed(nm)
+            w.ecdh_bad(nm)
+            w.pedersen(nm)
+            w.ecmqv(nm, ctx.n(8, 100))
+            w.ecies(nm, heavy=not ctx.quick)
+            continue
         own = ctx.mine(ci)
         w.ecdh(nm, ctx.n(25, 400))
         if own or not ctx.quick:
@@ -1246,6 +1261,7 @@ def run_ec(ctx):
             w.pedersen(nm)
         w.ecmqv(nm, ctx.n(10, 200))
         w.ecies(nm, heavy=own)
+    ctx.note("group_order_bits_and_cofactor", orders)
     w.finish()
 
 
@@ -1951,6 +1967,8 @@ def run(ctx, part):
         run_pke(ctx)
     elif part == "ec":
         run_ec(ctx)
+    elif part == "ec-alt":
+        run_ec(ctx, alt=True)
     elif part == "pairing":
         run_pairing(ctx)
     elif part == "mpc":
